@@ -137,6 +137,10 @@ class Engine(object):
                     continue
                 if c.get("trace") or not (c.get("modifies") or []):
                     continue
+                if "havoc" not in c and any(str(m).startswith("param:self") for m in c.get("modifies") or []) and \
+                        not c.get("emits") and not any(cs.get("emits") for cs in (c.get("cases") or [])):
+                    ok = False      # it changes something and never says WHAT may change: nothing can be assumed after it
+                    continue
                 ens = list(self.norm_named(c.get("ensures"), "post"))
                 for cs in c.get("cases") or []:
                     ens += self.norm_named(cs.get("ensures"), "post")
@@ -1395,6 +1399,7 @@ class Engine(object):
                 ctx.emit("frame", "frame/writes-outside-modifies", False, None, note="writes to %s" % sorted(set(bad)))
             else:
                 ctx.emit("frame", "frame/writes-outside-modifies", True, None)
+            self.field_frame(ex, contract, env, pre_env)
         else:
             cls = val
             name = cls.__name__
@@ -1415,6 +1420,42 @@ class Engine(object):
                 if bad:
                     ctx.emit("frame", "frame/writes-outside-modifies", False, None,
                              note="writes to %s" % sorted(set(bad)))
+
+    def field_frame(self, ex, contract, env, pre_env):
+        """a contract that declares `havoc` is assumed at call sites with exactly those fields changed: so the function
+        itself must leave every OTHER scalar field of its object parameters as it was (field-granular frame)"""
+        if "havoc" not in contract:
+            return
+        if contract.get("emits") is not None or contract.get("callee_events") or contract.get("trace") or \
+                any(cs.get("emits") is not None for cs in (contract.get("cases") or [])):
+            return      # event view: what happens to the other fields is what the events say, not a field comparison
+        hav = set(contract.get("havoc") or {})
+        for p, t in (contract.get("params") or {}).items():
+            cur, pre = env.get(p), pre_env.get(p)
+            if not isinstance(cur, Obj) or not isinstance(pre, Obj):
+                continue
+            for f, was in pre.fields.items():
+                key = "%s.%s" % (p, f)
+                if key in hav or any(h.startswith(key + ".") for h in hav):
+                    continue
+                now = cur.fields.get(f, None)
+                if isinstance(was, (bool, int, float, str, bytes, SInt, SBool, SReal, SStr)) or was is None:
+                    if now is None and was is not None:
+                        same = z3.BoolVal(False)
+                    elif now is None and was is None:
+                        same = z3.BoolVal(True)
+                    else:
+                        try:
+                            same = ex.spec_bool("ff_now == ff_was", {"ff_now": now, "ff_was": was}, goal=True)
+                        except (Raised, Unsupported, KeyError):
+                            continue
+                    ex.ctx.emit("frame", "frame/field-%s-not-declared-changed-is-unchanged" % key, same, None)
+                elif isinstance(was, (PList, SList)) and isinstance(now, (PList, SList)):
+                    ln_w = len(was.items) if isinstance(was, PList) else was.length
+                    ln_n = len(now.items) if isinstance(now, PList) else now.length
+                    g = (ln_w == ln_n)
+                    g = z3.BoolVal(g) if isinstance(g, bool) else g
+                    ex.ctx.emit("frame", "frame/field-%s-not-declared-changed-keeps-its-length" % key, g, None)
 
     def post_for(self, ex, c, penv, val, when, tag, contract):
         ctx = ex.ctx
